@@ -33,7 +33,7 @@ def _gcc(c_path, out_dir):
     out = os.path.join(out_dir, _so_name())
     if os.path.exists(out):
         return out
-    cmd = ["gcc", "-shared", "-fPIC", "-O1", "-w", "-I" + sysconfig.get_paths()["include"], "-I" + numpy.get_include(),
+    cmd = ["gcc", "-shared", "-fPIC", "-O1", "-DNDEBUG", "-w", "-I" + sysconfig.get_paths()["include"], "-I" + numpy.get_include(),
            "-o", out + ".tmp", c_path]
     p = subprocess.run(cmd, capture_output=True, text=True, timeout=600)
     if p.returncode != 0:
